@@ -13,6 +13,13 @@
 //! with exactly (controller, fn, args, predecessor, salt), predecessor Done, executor with
 //! role + exact entry whenever executors are configured) and MUST accept (additionally one
 //! descriptor per context).  After every step the complete observable state is compared.
+//!
+//! Getter entry points (sub-check `getters`, and once at the end of every `history` case): the example's
+//! public getters `get_min_delay`, `get_operation_ledger`, `get_operation_state`, `operation_exists`,
+//! `is_operation_pending`, `is_operation_ready`, `is_operation_done` and `hash_operation` are invoked as
+//! top-level contract invocations for every pool id and one never-scheduled id and compared with the
+//! same model (C08: "the reported state of every operation id follows exactly Unset -> Waiting -> Ready ->
+//! Done, or back to Unset by cancelling a pending operation"); see `getter_sweep`.
 
 use crate::contracts::c08::target::Target;
 use crate::contracts::c09::batcher::Batcher;
@@ -882,7 +889,125 @@ fn accepted_violation(w: &World, m: &Model, what: &str, n_ctx: usize, n_meta: us
     }
 }
 
+// ---------------------------------------------------------------- getter entry points (C08 state clause through the example's API)
+
+/// Per-case bookkeeping of the getter sweeps (plain data, a pure function of the case).
+#[derive(Default)]
+struct Sweeps {
+    /// bit s set: the entry points reported pool operation k in `OperationState` s (as u32)
+    states: [u8; POOL],
+    n: u32,
+    /// the constructor's minimum delay
+    min_delay0: u32,
+}
+
+/// Invokes every public getter ENTRY POINT of the example controller (top-level invocations through the
+/// contract's dispatch, not the library functions) for every pool operation id plus one id that was never
+/// scheduled, and compares with the model:
+///   get_operation_state == Unset / Waiting / Ready / Done  (Ready: scheduled, not done, ledger >= ready ledger);
+///   operation_exists == state != Unset; is_operation_pending == Waiting or Ready; is_operation_ready == Ready;
+///   is_operation_done == Done;
+///   get_operation_ledger == UNSET_LEDGER (unset) / DONE_LEDGER (done) / the ready ledger (scheduled), as documented
+///   on `stellar_governance::timelock::get_operation_ledger`;
+///   get_min_delay == the minimum delay in force; hash_operation(fields of one pool operation) == its id.
+/// The calls need no authorization, emit no events and are made after the step's own checks.
+fn getter_sweep(w: &World, m: &Model, ctx: &mut Ctx, sw: &mut Sweeps, what: &str) -> R {
+    use stellar_governance::timelock::{DONE_LEDGER, UNSET_LEDGER};
+    let e = &w.e;
+    let now = envx::seq(e);
+    envx::no_auth(e);
+    sw.n += 1;
+    ctx.class("getter_sweep");
+
+    let md: u32 = call_t(e, &w.ctrl, "get_min_delay", args![e]).map_err(|er| violation("C09/getter.get_min_delay/failed", format!("after {what}: {er}")))?;
+    ensure!(md == m.min_delay, "C09/getter.get_min_delay/ne-model", "after {what}: get_min_delay() = {md}, minimum delay in force = {}", m.min_delay);
+    if m.min_delay != sw.min_delay0 {
+        ctx.class("getter_min_delay_changed");
+    }
+
+    // hash_operation: the id of a pool operation (rotating) is re-derived from the same fields
+    let o = &w.ops[sw.n as usize % POOL];
+    let id: BytesN<32> = call_t(e, &w.ctrl, "hash_operation", args![e; o.target.clone(), o.func.clone(), o.args.clone(), o.pred.clone(), o.salt.clone()])
+        .map_err(|er| violation("C09/getter.hash_operation/failed", format!("after {what}: {er}")))?;
+    ensure!(id == o.id, "C09/getter.hash_operation/id-not-stable", "after {what}: hash_operation of the fields of pool operation {} no longer yields its id", sw.n as usize % POOL);
+
+    let unknown = BytesN::from_array(e, &[0xA7; 32]);
+    for k in 0..=POOL {
+        let (id, st) = if k < POOL { (&w.ops[k].id, m.st[k]) } else { (&unknown, St::Unset) };
+        let who = if k < POOL { format!("pool operation {k}") } else { "an id that was never scheduled".to_string() };
+        let (_, want_state) = derive(st, now);
+        let want_ledger = match st {
+            St::Unset => UNSET_LEDGER,
+            St::Done => DONE_LEDGER,
+            St::Sched(r) => r,
+        };
+        let (unset, waiting, ready, done) =
+            (OperationState::Unset as u32, OperationState::Waiting as u32, OperationState::Ready as u32, OperationState::Done as u32);
+
+        let got: OperationState = call_t(e, &w.ctrl, "get_operation_state", args![e; id.clone()])
+            .map_err(|er| violation("C09/getter.get_operation_state/failed", format!("after {what}, {who}: {er}")))?;
+        ensure!(
+            got as u32 == want_state,
+            "C09/getter.get_operation_state/ne-model",
+            "after {what}, {who}: get_operation_state = {:?}, model {:?} at ledger {now} (state {want_state})",
+            got,
+            st
+        );
+        let got: u32 = call_t(e, &w.ctrl, "get_operation_ledger", args![e; id.clone()])
+            .map_err(|er| violation("C09/getter.get_operation_ledger/failed", format!("after {what}, {who}: {er}")))?;
+        ensure!(got == want_ledger, "C09/getter.get_operation_ledger/ne-model", "after {what}, {who}: get_operation_ledger = {got}, documented value for {:?} is {want_ledger}", st);
+        let flags: [(&str, bool); 4] = [
+            ("operation_exists", want_state != unset),
+            ("is_operation_pending", want_state == waiting || want_state == ready),
+            ("is_operation_ready", want_state == ready),
+            ("is_operation_done", want_state == done),
+        ];
+        for (f, want) in flags {
+            let got: bool =
+                call_t(e, &w.ctrl, f, args![e; id.clone()]).map_err(|er| violation(format!("C09/getter.{f}/failed"), format!("after {what}, {who}: {er}")))?;
+            ensure!(got == want, format!("C09/getter.{f}/ne-model"), "after {what}, {who}: {f} = {got}, model {:?} at ledger {now} requires {want}", st);
+        }
+
+        // classes
+        if k == POOL {
+            ctx.class("getter_unknown_id");
+            continue;
+        }
+        let before = sw.states[k];
+        sw.states[k] |= 1 << want_state;
+        match st {
+            St::Unset => {
+                // Unset reported again after the id had been pending: it was cancelled
+                ctx.class(if before & ((1 << waiting) | (1 << ready)) != 0 { "getter_id_unset_after_cancel" } else { "getter_id_unset" });
+            }
+            St::Done => ctx.class("getter_id_done"),
+            St::Sched(r) => {
+                ctx.class(if r > now { "getter_id_waiting" } else { "getter_id_ready" });
+                if r == now {
+                    ctx.class("getter_id_ready_at_ready_ledger");
+                }
+                if r == now.wrapping_add(1) {
+                    ctx.class("getter_id_waiting_at_ready_minus_1");
+                }
+                if r == u32::MAX {
+                    ctx.class("getter_id_ready_ledger_saturated");
+                }
+            }
+        }
+    }
+    Ok(())
+}
+
+/// The `getters` sub-check: the same generator and interpreter, with the getter sweep after every step.
+pub fn run_getters(case: &Case, ctx: &mut Ctx) -> R {
+    run_with(case, ctx, true)
+}
+
 pub fn run(case: &Case, ctx: &mut Ctx) -> R {
+    run_with(case, ctx, false)
+}
+
+fn run_with(case: &Case, ctx: &mut Ctx, sweep: bool) -> R {
     ensure!(case.pool.len() == POOL && case.n_prop >= 1 && case.n_prop <= 2 && case.n_exec <= 2, "C09/harness/ill-formed-case", "ill-formed case");
     let e = envx::new_env(case.seq, envx::BIG_TTL);
     // actors: 0,1 = proposer candidates; 2,3 = executor candidates; 4,5 = strangers
@@ -955,6 +1080,10 @@ pub fn run(case: &Case, ctx: &mut Ctx) -> R {
         Ok(())
     };
     compare(&m, "set-up")?;
+    let mut sw = Sweeps { min_delay0: case.min_delay, ..Sweeps::default() };
+    if sweep {
+        getter_sweep(&w, &m, ctx, &mut sw, "set-up")?;
+    }
 
     let mut last = 0usize;
     let (mut saw_short, mut saw_nonready, mut saw_accept) = (false, false, false);
@@ -1135,6 +1264,9 @@ pub fn run(case: &Case, ctx: &mut Ctx) -> R {
                     m.admin = Adm::Actor(p);
                     m.pending = None;
                     compare(&m, &what)?;
+                    if sweep {
+                        getter_sweep(&w, &m, ctx, &mut sw, &what)?;
+                    }
                     // the controller is no longer self-administered: outside the property's domain
                     ctx.class("admin_transferred_away");
                     break;
@@ -1362,7 +1494,27 @@ pub fn run(case: &Case, ctx: &mut Ctx) -> R {
             }
         }
         compare(&m, &what)?;
+        // read-only top-level invocations, after the step's own checks (events of the step were inspected above)
+        if sweep {
+            getter_sweep(&w, &m, ctx, &mut sw, &what)?;
+        }
     }
+    if sweep {
+        // non-triviality of a getter case: the entry points reported one and the same id in all four states
+        let all4 = sw.states.iter().filter(|b| **b == 0b1111).count();
+        let union = sw.states.iter().fold(0u8, |a, b| a | b);
+        if union == 0b1111 {
+            ctx.class("getter_case_all_four_states");
+        }
+        if all4 > 0 {
+            ctx.class("getter_case_id_full_lifecycle");
+            ctx.nontrivial = true;
+            ctx.class("getter_nontrivial");
+        }
+        return Ok(());
+    }
+    // `history` cases: one sweep over the final state (read-only, after every check of the history)
+    getter_sweep(&w, &m, ctx, &mut sw, "the last step")?;
     if saw_short && saw_nonready && saw_accept {
         ctx.nontrivial = true;
         ctx.class("nontrivial");
@@ -1377,9 +1529,17 @@ pub fn property() -> Property {
                history of <= 30 (thorough 60) schedule_op / cancel_op / execute_op with auth modes, ledger advances, end-to-end admin calls carrying crafted controller credentials \
                (Vec<OperationMeta> of length 0..3, perturbed predecessor/salt/executor, executor entry attached or not, direct / forwarded / batched) and direct __check_auth invocations \
                with arbitrary (context list, descriptor list) pairs); non-trivial = the case contains a payload with fewer descriptors than contexts AND a well-formed payload on a \
-               non-ready operation AND an accepted call; distinct = distinct serialised case",
+               non-ready operation AND an accepted call; distinct = distinct serialised case. \
+               Sub-check getters: same generator and interpreter; after set-up and after every step (ledger advances included) every public getter entry point of the example \
+               (get_min_delay, hash_operation, and get_operation_state / get_operation_ledger / operation_exists / is_operation_pending / is_operation_ready / is_operation_done \
+               for the 4 pool ids and one never-scheduled id) is invoked top-level and compared with the model; non-trivial (getters) = the entry points reported one and the same \
+               operation id in all four states Unset, Waiting, Ready and Done during the case. Every history case ends with one such sweep over its final state",
         // (own Gen value instead of gen_sub: more shrink iterations, the histories are long)
-        subs: vec![Box::new(Gen::<Case> { name: "history", quick: 1500, thorough: 20000, strategy, run, max_shrink_iters: 3000 })],
+        subs: vec![
+            Box::new(Gen::<Case> { name: "history", quick: 1500, thorough: 20000, strategy, run, max_shrink_iters: 3000 }),
+            // same generator / interpreter + the getter entry points after set-up and after every step (7 x 5 ids + 2 invocations per sweep)
+            Box::new(Gen::<Case> { name: "getters", quick: 100, thorough: 3000, strategy, run: run_getters, max_shrink_iters: 3000 }),
+        ],
         // <= 1/10 of the class counts measured over seeds 0..5 (quick, repaired tree); thorough = 10x quick
         floors: vec![
             ("nontrivial", 50, 500),
@@ -1398,6 +1558,21 @@ pub fn property() -> Property {
             ("cancel_pending_auth_defective", 10, 100),
             ("execute_ok", 40, 400),
             ("execute_ready_without_executor_auth", 12, 120),
+            // getter entry points: <= 1/10 of the counts measured over seeds 0..3 (quick); thorough = 8x quick
+            ("getter_nontrivial", 55, 440),
+            ("getter_case_id_full_lifecycle", 55, 440),
+            ("getter_case_all_four_states", 75, 600),
+            ("getter_sweep", 6000, 48000),
+            ("getter_unknown_id", 6000, 48000),
+            ("getter_id_unset", 10000, 80000),
+            ("getter_id_waiting", 2200, 17600),
+            ("getter_id_ready", 2200, 17600),
+            ("getter_id_done", 1300, 10400),
+            ("getter_id_ready_at_ready_ledger", 800, 6400),
+            ("getter_id_waiting_at_ready_minus_1", 500, 4000),
+            ("getter_id_ready_ledger_saturated", 500, 4000),
+            ("getter_id_unset_after_cancel", 500, 4000),
+            ("getter_min_delay_changed", 250, 2000),
         ],
         assumptions: vec![
             "Soroban native test host (auth-tree matching, __check_auth dispatch, rollback of failed invocations, no re-entry) is trusted",
